@@ -8,6 +8,8 @@ Online trace monitor over the stdio frames of the real `ironplcc lsp --stdio`:
  * after shutdown + exit it terminates with status 0 (a watchdog firing is inconclusive)."""
 import shutil
 
+import os
+
 import core
 import hostile
 import lsp
@@ -30,14 +32,23 @@ BAD_PARAMS = [{}, [], None, [1, 2], {"textDocument": {}}, {"textDocument": {"uri
               {"textDocument": {"uri": "file:///w/a.st", "version": "one"}, "contentChanges": [{"text": "x"}]},
               {"textDocument": {"uri": "file:///w/a.st", "version": 1}, "contentChanges": {"text": "x"}},
               {"textDocument": {"uri": "file:///w/a.st", "version": 1}, "contentChanges": [{"range": 1}]},
-              {"textDocument": {"uri": "file:///w/a.st", "languageId": "st", "version": 1}}, {"unknown": True}]
+              {"textDocument": {"uri": "file:///w/a.st", "languageId": "st", "version": 1}}, {"unknown": True},
+              # ... and parameters that ARE what a notification of that name takes, sent with a request id: a request is
+              # answered (with an error, if the method is not one for requests), whatever its name
+              {"textDocument": {"uri": "file:///w/a.st", "languageId": "st", "version": 1, "text": "PROGRAM asreq END_PROGRAM\n"}},
+              {"textDocument": {"uri": "file:///w/a.st", "version": 2}, "contentChanges": [{"text": "PROGRAM asreq2 END_PROGRAM\n"}]},
+              {"textDocument": {"uri": "file:///w/b.st"}},
+              {"event": {"added": [{"uri": "file:///w/elsewhere", "name": "e"}], "removed": []}}]
 BAD_METHODS = ["textDocument/semanticTokens/full", "textDocument/didOpen", "textDocument/didChange", "initialized", "exit-not",
-               "textDocument/hover"]
+               "textDocument/hover", "textDocument/didClose", "textDocument/didSave", "workspace/didChangeWorkspaceFolders",
+               "textDocument/didOpen", "textDocument/didChange"]
 
 
-def gen_ops(rng, docs, n):
+def gen_ops(rng, docs, n, special=()):
     uris = ["file:///w/a.st", "file:///w/b.st", "file:///w/dir/c.st"]
-    odd = ODD_URIS
+    # special: URIs of things that exist on this machine and are not regular files (a named pipe nobody writes to, a
+    # device that never ends, a directory): naming them in a message is not a reason to read them
+    odd = ODD_URIS + list(special) * 2
     ops = []
     for _ in range(n):
         k = rng.randrange(15)
@@ -187,6 +198,14 @@ def shard(shard_i, nshards, payload):
     res = core.Result()
     seed = payload["seed"]
     tmp = core.worker_tmpdir("c12")
+    special = []
+    try:
+        os.makedirs(os.path.join(tmp, "special", "folder.st"), exist_ok=True)
+        os.mkfifo(os.path.join(tmp, "special", "pipe.st"))
+        special = ["file://" + os.path.join(tmp, "special", "pipe.st"), "file://" + os.path.join(tmp, "special", "folder.st"),
+                   "file:///dev/zero", "file:///dev/null", "file:///dev/full"]
+    except OSError:
+        pass
     try:
         for i in range(shard_i, payload["n"], nshards):
             rng = core.rng_for(seed, "c12", i)
@@ -227,7 +246,13 @@ def shard(shard_i, nshards, payload):
             docs += [docs[0].replace("\n\n", "\n\f\n", 2), "PROGRAM p\fVAR x : INT; END_VAR\f\fx := 1; (* a\fb *)\nEND_PROGRAM\f"]
             if payload.get("clean_docs"):
                 docs = docs[:7]
-            ops = gen_ops(rng, docs, rng.randint(1, 60))
+            ops = gen_ops(rng, docs, rng.randint(1, 60), special if i % 3 == 0 else ())
+            if i % 3 == 0 and special:
+                # a close, a save and a request about each of the special files
+                k_ = rng.randrange(len(ops) + 1)
+                su = rng.choice(special)
+                ops[k_:k_] = [("odd-params", "textDocument/didClose", {"textDocument": {"uri": su}}, False), ("tokens", su),
+                              ("odd-params", "textDocument/didSave", {"textDocument": {"uri": su}}, False)]
             if i % 4 == 0:
                 ops = ops[:rng.randint(1, 4)]
             verdicts, trace = run_session(ops, tmp)
